@@ -178,6 +178,38 @@ func runC07(r *hx.Run, replay string) {
 			text = "# pint file/snooze 2000-01-01 " + target.Reporter
 		}
 		lines := strings.Split(strings.TrimSuffix(file, "\n"), "\n")
+		if rr.Intn(2) == 0 && !strings.HasPrefix(form, "file/") {
+			// the rule already carries other control comments (the theorems hold for any existing comments):
+			// an expired snooze of the same check, comments about other checks, an owner
+			pre := []string{"# pint snooze 2000-01-01 " + target.Reporter, "# pint snooze 2099-01-01 promql/fragile", "# pint disable promql/regexp", "# pint rule/owner bob",
+				"# pint snooze 1999-12-31T00:00:00Z " + target.Reporter}
+			first := target.RuleFirst - 1
+			var add []string
+			for k, n := 0, 1+rr.Intn(2); k < n; k++ {
+				add = append(add, "  "+hx.Pick(rr, pre))
+			}
+			out := append([]string{}, lines[:first]...)
+			out = append(out, add...)
+			out = append(out, lines[first:]...)
+			lines = out
+			file = strings.Join(lines, "\n") + "\n"
+			_, reps2, perr2 := c07Keys(cfg, file, r, 1<<30, 0)
+			if perr2 != "" {
+				continue
+			}
+			found := false
+			for _, x := range reps2 {
+				if x.Reporter == target.Reporter && x.RuleName == target.RuleName && x.RuleFirst == target.RuleFirst+len(add) {
+					target, found = x, true
+					break
+				}
+			}
+			if !found {
+				r.Count("pre-existing-comments-changed-baseline")
+				continue
+			}
+			r.Count("with-pre-existing-comments")
+		}
 		cs := c07Case{Config: cfg, Locked: locked, File: file, Form: form, RuleLine: target.RuleFirst, RuleName: target.RuleName, Reporter: target.Reporter, InsertAt: -1}
 		var placements []string
 		if strings.HasPrefix(form, "file/") {
